@@ -1,6 +1,7 @@
 package main
 
 import (
+	"go/types"
 	"strings"
 
 	"golang.org/x/tools/go/ssa"
@@ -136,5 +137,55 @@ func checkC07(p *Prog, r *Report) {
 	}
 	if nSt == 0 {
 		r.unresolved(rule, "store to BuildTarget.RuleHash")
+	}
+	// state recycled between BUILD evaluations is fully reset
+	rule = "E5.recycled-state-reset"
+	nPut := 0
+	for _, f := range p.Funcs("parse/asp", "parse", "core", "build") {
+		eachInstr(f, false, func(g *ssa.Function, i ssa.Instruction) {
+			cc := callCommon(i)
+			if cc == nil || calleeName(cc) != "(*sync.Pool).Put" || len(cc.Args) < 2 {
+				return
+			}
+			var sl ssa.Value
+			if mi, ok := cc.Args[1].(*ssa.MakeInterface); ok {
+				if _, ok := mi.X.Type().Underlying().(*types.Slice); ok {
+					sl = mi.X
+				}
+			}
+			if sl == nil {
+				return
+			}
+			nPut++
+			fn := i.Parent()
+			okk := false
+			// clear(x)
+			eachInstr(fn, false, func(_ *ssa.Function, j ssa.Instruction) {
+				if c, ok := j.(*ssa.Call); ok {
+					if b, ok := c.Call.Value.(*ssa.Builtin); ok && b.Name() == "clear" && rootOf(c.Call.Args[0]) == rootOf(sl) && instrDominates(c, i) {
+						okk = true
+					}
+				}
+			})
+			for _, l := range sliceRangeLoops(fn) {
+				if rootOf(l.over) != rootOf(sl) || l.blocks[i.Block()] || len(l.header.Instrs) == 0 || !instrDominates(l.header.Instrs[0], i) {
+					continue
+				}
+				if !l.iterationSkips(func(j ssa.Instruction) bool {
+					st, ok := j.(*ssa.Store)
+					if !ok || !isZeroValue(st.Val) {
+						return false
+					}
+					ia, ok := st.Addr.(*ssa.IndexAddr)
+					return ok && rootOf(ia.X) == rootOf(sl)
+				}) {
+					okk = true
+				}
+			}
+			r.check(okk, rule, "pooled slice is cleared in full before it is put back", p.pos(i.Pos()), fnName(fn), "every element of the slice is reset (a loop over the whole slice storing nil unconditionally, or clear) before (*sync.Pool).Put", "a slice goes back into a sync.Pool without every element having been reset: what one BUILD-language call left in it (an argument rewritten in place, e.g. build_rule setting local=True) is seen by the next call that draws it, so a target's attributes and rule hash depend on which package was evaluated before it")
+		})
+	}
+	if nPut == 0 {
+		r.okTrivial(rule, "no slice is recycled through a sync.Pool", "-", "", "no (*sync.Pool).Put of a slice in packages asp/parse/core/build")
 	}
 }
